@@ -53,18 +53,7 @@ def run_case(data):
         frames, _ = bytesgen.mutate_frames(ch, frames, start if ch.chance(230) else 0)
     if mode == 'blocks':
         # an adversarial header block in the place of a genuine one (HEADERS or PUSH_PROMISE), everything else valid
-        frames = list(frames)
-        hits = 0
-        for i, f in enumerate(frames):
-            if len(f) < 9 or f == wire.PREFACE:
-                continue
-            length, t_, flags, rbit, sid = wire.parse_header(f[:9])
-            if t_ == wire.HEADERS and not flags & (wire.F_PADDED | wire.F_PRIORITY) and ch.chance(100):
-                frames[i] = wire.raw(t_, flags | wire.F_END_HEADERS, sid, bytesgen.adversarial_block(ch))
-                hits += 1
-            elif t_ == wire.PUSH_PROMISE and not flags & wire.F_PADDED and len(f) >= 13 and ch.chance(160):
-                frames[i] = wire.raw(t_, flags | wire.F_END_HEADERS, sid, f[9:13] + bytesgen.adversarial_block(ch))
-                hits += 1
+        frames, hits = bytesgen.place_adversarial_blocks(ch, frames)
         if hits:
             r.labels.add('adversarial-block-in-position')
     if mode == 'cont-flood':
